@@ -2,6 +2,7 @@ package props
 
 import (
 	"context"
+	"fmt"
 	"net/url"
 	"strings"
 	"testing"
@@ -108,9 +109,15 @@ func (m *c04Mon) after(h *H, s *step) {
 		}
 		// The exchange succeeded if the provider accepted it and answered; from then on the login state counts as
 		// consumed - unless a fault was injected into the very call that consumes it (then it may legitimately survive).
+		// ... or the exchange's result could not be validated because the provider call or the key lookup was faulted
 		clearFaulted := false
 		for _, sc := range s.Store {
 			if sc.Op == "ClearAuthorizationState" && sc.Fault != "" {
+				clearFaulted = true
+			}
+		}
+		for _, f := range w.Fired[s.R.FiredFrom:s.R.FiredTo] {
+			if f.Kind == "token" || f.Kind == "jwks" {
 				clearFaulted = true
 			}
 		}
@@ -193,16 +200,52 @@ func c04Prop(c *sim.Case) {
 	c.FP(ho.o.Store, strings.Join(ks, ","))
 }
 
+// c04Enum: a login whose callback is hit by EVERY single fault position and mode, followed by a verbatim replay of
+// that callback under the same cookie and another application request.
+func c04Enum(c *sim.Case) {
+	combo := sim.Pick(c, "combo", 16) // store x refresh token issued x forwarding x discovery
+	ho := histOpts{o: sim.WorldOpts{Store: []string{"memory", "redis"}[combo%2], AccessToken: (combo/4)%2 == 1, Logout: true, Discovery: combo/8 == 1},
+		idTTL: 600e9, expIn: 300, noRT: (combo/2)%2 == 1}
+	ops := []op{{K: "nav", Target: "/a"}, {K: "authorize"}, {K: "callback"}, {K: "attack", Att: "replay-callback", Arg: "verbatim"}, {K: "nav", Target: "/a"},
+		{K: "attack", Att: "replay-callback", Arg: "reordered"}}
+	// count the interception points of the clean run
+	h0 := ho.build(c)
+	for i := range ops {
+		h0.exec(&ops[i])
+	}
+	P := h0.w.Pos()
+	h0.w.Close()
+	c.Trace = nil
+	modes := []string{"before", "after"}
+	if ho.o.Store == "redis" {
+		modes = append(modes, "redis")
+	}
+	ho.faults = map[int]string{sim.Pick(c, "pos", P): modes[sim.Pick(c, "mode", len(modes))]}
+	c.Logf("world: %v", ho)
+	logOps(c, ops)
+	m := &c04Mon{exchanged: map[string]int{}}
+	h := ho.build(c, m)
+	defer h.w.Close()
+	for i := range ops {
+		h.exec(&ops[i])
+	}
+	if h.w.FiredCount() > 0 {
+		c.NonTrivial()
+	}
+	c.FP(combo, fmt.Sprint(ho.faults))
+}
+
 func TestC04(t *testing.T) {
 	r := sim.NewRun(t, "C04")
 	defer r.Finish()
-	r.Rule = "request-level interleavings of the login flows of 3 browsers (nav / authorize at the provider / deliver callback as separate ops) plus an attacker who replays callbacks verbatim or edited (16 state/code edits: absent, empty, near-miss, duplicated both orders, re-cased name, percent-encoded name, ';' separator, swapped/unknown code) under its own or another browser's cookie, forges callbacks and plants session ids; client ids/secrets with reserved characters; both stores. The token endpoint is a strict RFC 6749/7636 monitor. Non-trivial = at least two sessions had pending logins at once and an attacker callback hit while a login was pending; distinct = distinct (store, step kinds, edits, verdicts)."
+	r.Rule = "request-level interleavings of the login flows of 3 browsers (nav / authorize at the provider / deliver callback as separate ops) plus an attacker who replays callbacks verbatim or edited (16 state/code edits: absent, empty, near-miss, duplicated both orders, re-cased name, percent-encoded name, ';' separator, swapped/unknown code) under its own or another browser's cookie, forges callbacks and plants session ids; client ids/secrets with reserved characters; both stores. The token endpoint is a strict RFC 6749/7636 monitor. Part 'enum-faults': one login whose steps are hit by every single fault position and mode (store, token endpoint, key lookup; before / after / Redis outage), followed by verbatim and re-ordered replays of its callback. Non-trivial = at least two sessions had pending logins at once and an attacker callback hit while a login was pending; distinct = distinct (store, step kinds, edits, verdicts)."
 	r.Assumptions = []string{"with duplicated state parameters of which one matches, either decision is accepted", "client ids never contain ':' (rejected by the loader)"}
-	parts := map[string]func(*sim.Case){"histories": c04Prop}
+	parts := map[string]func(*sim.Case){"histories": c04Prop, "enum-faults": c04Enum}
 	if r.Replay != "" {
 		r.ReplayFile(parts)
 		return
 	}
 	r.CheckKnown(parts)
+	r.Exhaustive("enum-faults", 0, c04Enum)
 	r.Rapid("histories", r.N(12000, 200000), c04Prop)
 }
